@@ -20,7 +20,9 @@ clang-14 $CFLAGS -fsanitize=thread $INC -c $REPO/platform/linux/src/nsync_semaph
 clang-14 $CFLAGS $INC -c $H/rt/vf.c -o $OUT/obj/vf.o & pids="$pids $!"
 clang-14 $CFLAGS -DVF_FUTEX $INC -c $H/rt/vf.c -o $OUT/objf/vf.o & pids="$pids $!"
 clang-14 $CFLAGS $INC -c $H/scen/scen.c -o $OUT/obj/scen.o & pids="$pids $!"
+clang-14 $CFLAGS $INC -I$H/rt -c $H/rt/wrap.c -o $OUT/obj/wrap.o & pids="$pids $!"
 for p in $pids; do wait $p; done
 NS=""; for s in $SRCS time_rep once common; do NS="$NS $OUT/obj/$s.o"; done
-clang-14 -o $OUT/vfh $NS $OUT/obj/vf.o $OUT/obj/scen.o
-clang-14 -o $OUT/vfh_futex $NS $OUT/objf/futex.o $OUT/objf/vf.o $OUT/obj/scen.o
+WRAP=""; for f in nsync_mu_lock nsync_mu_unlock nsync_mu_rlock nsync_mu_runlock nsync_mu_trylock nsync_cv_signal nsync_cv_broadcast nsync_note_notify nsync_cv_wait_with_deadline nsync_mu_wait nsync_wait_n; do WRAP="$WRAP -Wl,--wrap=$f"; done
+clang-14 $WRAP -o $OUT/vfh $NS $OUT/obj/vf.o $OUT/obj/scen.o $OUT/obj/wrap.o
+clang-14 $WRAP -o $OUT/vfh_futex $NS $OUT/objf/futex.o $OUT/objf/vf.o $OUT/obj/scen.o $OUT/obj/wrap.o
